@@ -814,7 +814,16 @@ Definition c02_swept (t : trans) : bool :=
 (* C02, "every bidder has received the coins allocated to them plus the unused part of their reservation": at the
    settlement of a batch auction each bidder's refund is the reservation minus what the allocation costs at the
    clearing price (the whole reservation when nothing is allocated) - the batch clause of C04 *)
-Definition c02_all (t : trans) : bool := c02_ok t && c02_swept t && c04_batch t.
+(* C02, "nothing is left in escrow" for the vesting escrow: the module never sweeps it, so whatever a settlement moves
+   into it must be recorded as instalments in full (and whatever a release takes out must have been an instalment):
+   its excess over the records changes by third-party deposits only.  Added after S160 (two instalments stored under
+   one key: one share stranded for ever) was reported by C01 and C09 but not by C02. *)
+Definition c02_vested (t : trans) : bool :=
+  forallb (fun id => forallb (fun d =>
+      if sweeps t Vesting id d then true
+      else excess (t_post t) Vesting id d =? excess (t_pre t) Vesting id d + donated t Vesting id d)
+    denoms) (ids_upto (st_aseq (t_post t) + 2)).
+Definition c02_all (t : trans) : bool := c02_ok t && c02_swept t && c04_batch t && c02_vested t.
 
 (* C04, fixed price auctions at settlement: what a bidder paid for at the acceptance of each bid (c04_fixed) is what
    is delivered - the sum of the quantities of the bidder's bids, nothing clamped or scaled down afterwards *)
